@@ -199,8 +199,12 @@ func (c *checkPointer) set(ctx context.Context, id string, cp *checkpoint) error
 func (c *checkPointer) convertCheckPoint(cp *checkpoint, isStream bool) (err error) {
 	for to, ch := range cp.Channels {
 		to := to
+		// an all-predecessor node may still be skipped: what is parked for it only matters if it gets to
+		// read it. A parked stream that cannot be turned into a value (an item that did not pass the checks
+		// of its edge) is kept as the failure the node will meet, as a run in value form parks it.
+		_, parkFailures := ch.(*dagChannel)
 		err = ch.convertValues(func(m map[string]any) error {
-			return c.sc.convertOutputs(isStream, to, m)
+			return c.sc.convertOutputs(isStream, to, m, parkFailures)
 		})
 		if err != nil {
 			return err
@@ -265,22 +269,22 @@ func (s *streamConverter) channelPairs(to string, values map[string]any) map[str
 }
 
 func (s *streamConverter) convertInputs(isStream bool, values map[string]any) error {
-	return convert(values, s.inputPairs, isStream)
+	return convert(values, s.inputPairs, isStream, false)
 }
 
 func (s *streamConverter) restoreInputs(isStream bool, values map[string]any) error {
 	return restore(values, s.inputPairs, isStream)
 }
 
-func (s *streamConverter) convertOutputs(isStream bool, to string, values map[string]any) error {
-	return convert(values, s.channelPairs(to, values), isStream)
+func (s *streamConverter) convertOutputs(isStream bool, to string, values map[string]any, parkFailures bool) error {
+	return convert(values, s.channelPairs(to, values), isStream, parkFailures)
 }
 
 func (s *streamConverter) restoreOutputs(isStream bool, to string, values map[string]any) error {
 	return restore(values, s.channelPairs(to, values), isStream)
 }
 
-func convert(values map[string]any, convPairs map[string]streamConvertPair, isStream bool) error {
+func convert(values map[string]any, convPairs map[string]streamConvertPair, isStream bool, parkFailures bool) error {
 	if !isStream {
 		// a nil value (of an interface type) is kept as the marker a streaming run writes for it: a
 		// resume in stream form must hand on one nil chunk, not a stream without chunks
@@ -292,6 +296,10 @@ func convert(values map[string]any, convPairs map[string]streamConvertPair, isSt
 		return nil
 	}
 	for key, v := range values {
+		if _, failed := v.(*edgeFailure); failed {
+			// parked by a run in value form and restored as it is: not a stream
+			continue
+		}
 		convPair, ok := convPairs[key]
 		if !ok {
 			return fmt.Errorf("checkpoint conv stream fail, node[%s] have not been registered", key)
@@ -302,6 +310,10 @@ func convert(values map[string]any, convPairs map[string]streamConvertPair, isSt
 		}
 		nValue, err := convPair.concatStream(sr)
 		if err != nil {
+			if parkFailures {
+				values[key] = &edgeFailure{Msg: err.Error(), err: err}
+				continue
+			}
 			return err
 		}
 		values[key] = nValue
@@ -320,6 +332,11 @@ func restore(values map[string]any, convPairs map[string]streamConvertPair, isSt
 		return nil
 	}
 	for key, v := range values {
+		if _, failed := v.(*edgeFailure); failed {
+			// a value that did not pass the handlers of its edge in a run in value form: the channel
+			// reports it when (and only when) the target reads its input, whatever the form of the run
+			continue
+		}
 		convPair, ok := convPairs[key]
 		if !ok {
 			return fmt.Errorf("checkpoint restore stream fail, node[%s] have not been registered", key)
